@@ -12,6 +12,7 @@ import (
 	"github.com/hashicorp/raft-wal/metrics"
 	"github.com/hashicorp/raft-wal/segment"
 
+	"harness/refformat"
 	"harness/sym"
 	"harness/vrt"
 )
@@ -55,7 +56,8 @@ type model struct {
 	Unknown bool // contents not known (only First/Last are compared)
 }
 
-func (m *model) empty() bool { return len(m.Ents) == 0 }
+func (m *model) empty() bool       { return len(m.Ents) == 0 }
+func (m *model) has(i uint64) bool { return !m.empty() && i >= m.first() && i <= m.last() }
 func (m *model) first() uint64 {
 	if m.empty() {
 		return 0
@@ -159,5 +161,39 @@ func checkSealedIndexes(tag string, fs *sym.FS, meta *sym.Meta) {
 			ok = h[0] == 2 && n%4 == 0 && uint64(n) >= 4*(si.MaxIndex-si.BaseIndex+1)
 		}
 		vrt.Assert(tag+".sealed-index-start-is-an-index-frame", ok)
+	}
+}
+
+// auditSegments (C09): every live segment file, as the running process has
+// written it so far, is a README-conformant image up to the commit frame that
+// covers its last acknowledged entry: header agreeing with name and metadata,
+// aligned zero-padded frames, every commit frame's CRC-32C over exactly the bytes
+// since the previous commit (the first: header included), each acknowledged
+// entry present in order, nothing acknowledged left uncommitted, and for sealed
+// segments an index frame at the recorded IndexStart whose elements address the
+// entry frames. m is the acknowledged log (nil: contents are not compared).
+func auditSegments(tag string, fs *sym.FS, meta *sym.Meta, m *model) {
+	for _, si := range meta.State.Segments {
+		name := segment.FileName(si)
+		d := fs.Data(name)
+		sealed := !si.SealTime.IsZero()
+		want := 0
+		if sealed {
+			want = int(si.MaxIndex - si.BaseIndex + 1)
+		} else if m != nil && !m.empty() && m.last() >= si.BaseIndex {
+			want = int(m.last() - si.BaseIndex + 1)
+		}
+		if want == 0 && !sealed {
+			continue // an empty tail: the header is written with the first commit
+		}
+		r := refformat.Audit(d, si.BaseIndex, si.ID, si.Codec, want, sealed)
+		vrt.Assert(tag+".header-agrees-with-name-and-metadata", r.HeaderOK)
+		vrt.Assert(tag+".acknowledged-entries-are-committed", r.Covered && r.Entries >= want)
+		vrt.Assert(tag+".commit-crc-covers-exactly-the-bytes-since-the-previous-commit", r.CRCsOK)
+		vrt.Assert(tag+".padding-is-zero", r.PaddingZero)
+		if sealed {
+			vrt.Assert(tag+".sealed-segment-has-index-frame-at-index-start", r.HasIndex && r.IndexOK && r.IndexStart == si.IndexStart)
+		}
+		vrt.Reach("segment-audited")
 	}
 }
